@@ -46,6 +46,7 @@ func R22(pkgs ...string) func(p *core.Prog) *core.Result {
 			popOrder(p, r)
 			stepBytesAccounting(p, r)
 			siblingArms(p, r)
+			zeroLengthRefused(p, r)
 		}
 		lostUpdate(p, r, in)
 		stackInit(p, r, in)
